@@ -23,6 +23,37 @@ class VLoop(asyncio.SelectorEventLoop):
         self._vt += dt
 
 
+class WallClock:
+    """stands in for the `time` module inside the server modules: the WALL clock (`time.time()`) can be stepped forwards or
+    backwards (NTP sync, `date -s`, suspend/resume) independently of the event loop's monotonic clock"""
+
+    def __init__(self):
+        import time as _t
+
+        self._t = _t
+        self.offset = 0.0
+
+    def time(self):
+        return self._t.time() + self.offset
+
+    def __getattr__(self, name):
+        return getattr(self._t, name)
+
+
+def install_wall(*modules):
+    """put one WallClock in place of `time` in every given module that imports it; returns (clock, restore)"""
+    w = WallClock()
+    saved = [(m, m.time) for m in modules if hasattr(m, "time")]
+    for m, _ in saved:
+        m.time = w
+
+    def restore():
+        for m, t in saved:
+            m.time = t
+
+    return w, restore
+
+
 class FakeTransport:
     """records write/close; writes after close() are dropped (asyncio semantics)"""
 
@@ -187,6 +218,8 @@ def enc_case(c, verb="connx") -> str:
             parts.append(k + ":" + enc_resp(e[1]))
         elif k == "tick":
             parts.append(f"k:{e[1]}")
+        elif k == "wall":
+            parts.append("k:0")             # a step of the wall clock is no event for the model: time there is the loop's monotonic clock
         elif k == "lim":
             parts.append(f"lim:{e[1]}")
         else:
@@ -290,6 +323,13 @@ async def run_conn(loop: VLoop, c, middleware=None, upload_handler=None, handler
         return co()
 
     class Up:
+        # the public knobs of the real FileUploadHandler, so that code probing the handler object finds them
+        max_size = 8
+        upload_dir = "/nonexistent"
+        allowed_types = None
+        auth_tokens = None
+        enable_delete = True
+
         async def handle_upload(self, req):
             log["u"] += 1
             log["order"].append("u")
@@ -320,6 +360,7 @@ async def run_conn(loop: VLoop, c, middleware=None, upload_handler=None, handler
     loop.set_exception_handler(on_exc)
     lost = False
     lens: list[int] = []
+    wall, restore_wall = install_wall(sp)
     p.connection_made(t)
     queue = [list(e) for e in c["evs"]]
     qi = 0
@@ -359,6 +400,9 @@ async def run_conn(loop: VLoop, c, middleware=None, upload_handler=None, handler
                         if eof is not None:
                             eof()      # no loop iteration in between: what a queued callback writes now goes to a closing transport
                     p.connection_lost(None)
+            elif k == "wall":
+                wall.offset += e[1]          # the wall clock is stepped; the loop's monotonic clock and its timers are not
+                await asyncio.sleep(0)
             elif k == "lim":
                 t.limit = e[1]
             elif k == "rw":
@@ -418,6 +462,7 @@ async def run_conn(loop: VLoop, c, middleware=None, upload_handler=None, handler
         "paused_end": t.paused,
     }
     # tear down what the case left behind so that nothing fires during a later case on this loop
+    restore_wall()
     loop.set_exception_handler(lambda lp, ctx: None)
     if p.timeout_handle is not None:
         p.timeout_handle.cancel()
